@@ -38,13 +38,12 @@ def auto_schedules(quick):
                     for delay_ms in ((500, 900) if quick else (300, 500, 700, 900, 1200, 2000)):
                         sch.append([{"op": "Auto", "drop": [], "dup": [], "slow": [[node, call, slow_ms]], "delay": [[held, delay_ms]]}])
                         sch.append([{"op": "Auto", "drop": [held - 1] if held > 1 else [], "dup": [], "slow": [[node, call, slow_ms]], "delay": [[held, delay_ms]]}])
-    # sessions with other peers are closed by those peers while a message waits for its acknowledgement (which the
-    # network loses once or twice): the back-off of the message in flight is not their business
-    for node in (0, 1):
-        for lost in ([2], [2, 3], [1], [4], [3, 5]):
-            for times in ([50], [100, 200, 500], [400, 800, 1300, 2000]) if not quick else ([100, 200, 500], [400, 1300]):
-                sch.append([{"op": "Auto", "drop": lost, "dup": [], "closes": [[node, t] for t in times]}])
-                sch.append([{"op": "Auto", "drop": lost, "dup": [], "closes": [[k % 2, t] for k, t in enumerate(times)]}])
+    # stray first messages of handshakes reach the requesting node while its message waits for an acknowledgement that
+    # the network loses once or twice: its session table is full, so each stray evicts an idle session with another
+    # peer - which is none of the business of the message in flight and of its back-off
+    for lost in ([2], [2, 3], [1], [4], [3, 5], [2, 4, 6]):
+        for times in ([50], [100, 200, 500], [400, 800, 1300, 2000], [20, 40, 60, 80, 100, 120]) if not quick else ([100, 200, 500], [400, 1300], [20, 40, 60, 80]):
+            sch.append([{"op": "Auto", "drop": lost, "dup": [], "closes": [[0, t] for t in times]}])
     return sch
 
 def handshake_stage(ck, quick):
